@@ -252,6 +252,7 @@ func (v *Verifier) structural(cfg PropConfig, sc StructuralCheck) []StructResult
 			Callee  string   `json:"callee"`
 			Arg     int      `json:"arg"` // index among the call's arguments (receiver = 0 for methods)
 			Allowed []string `json:"allowed"`
+			Callers []string `json:"callers"` // optional: only call sites in these functions (each must have at least one)
 		}
 		json.Unmarshal(sc.Args, &a)
 		callee := v.funcsByKey[modulePath+"/"+a.Callee]
@@ -260,8 +261,12 @@ func (v *Verifier) structural(cfg PropConfig, sc StructuralCheck) []StructResult
 		}
 		var bad []string
 		n := 0
+		sitesIn := map[string]int{}
 		for _, fn := range v.moduleFunctions(false) {
 			if fn.Synthetic != "" {
+				continue
+			}
+			if len(a.Callers) > 0 && !matchAny(shortKey(fn), a.Callers) {
 				continue
 			}
 			for _, b := range fn.Blocks {
@@ -272,6 +277,11 @@ func (v *Verifier) structural(cfg PropConfig, sc StructuralCheck) []StructResult
 					}
 					cc := ci.Common()
 					var args []ssa.Value
+					if cc.StaticCallee() == callee && a.Arg >= len(cc.Args) {
+						bad = append(bad, fmt.Sprintf("%s calls it without argument %d (signature changed?)", shortKey(fn), a.Arg))
+						n++
+						continue
+					}
 					switch {
 					case cc.StaticCallee() == callee:
 						args = cc.Args
@@ -284,6 +294,7 @@ func (v *Verifier) structural(cfg PropConfig, sc StructuralCheck) []StructResult
 						continue
 					}
 					n++
+					sitesIn[shortKey(fn)]++
 					c, isC := args[a.Arg].(*ssa.Const)
 					val := ""
 					if isC && c.Value != nil {
@@ -293,6 +304,12 @@ func (v *Verifier) structural(cfg PropConfig, sc StructuralCheck) []StructResult
 					for _, al := range a.Allowed {
 						if isC && val == al {
 							okV = true
+						}
+						// "param:<name>": the caller hands on its own parameter of that name unchanged
+						if pn, isP := strings.CutPrefix(al, "param:"); isP {
+							if pv, ok := args[a.Arg].(*ssa.Parameter); ok && pv.Name() == pn {
+								okV = true
+							}
 						}
 					}
 					if !okV {
@@ -305,8 +322,17 @@ func (v *Verifier) structural(cfg PropConfig, sc StructuralCheck) []StructResult
 				}
 			}
 		}
+		for _, c := range a.Callers {
+			if sitesIn[c] == 0 {
+				bad = append(bad, fmt.Sprintf("%s no longer calls it with such an argument", c))
+			}
+		}
 		sort.Strings(bad)
-		return []StructResult{{Name: name, Kind: "frame", Text: fmt.Sprintf("every call of %s passes one of %v as argument %d", a.Callee, a.Allowed, a.Arg),
+		where := ""
+		if len(a.Callers) > 0 {
+			where = " in " + strings.Join(a.Callers, ", ")
+		}
+		return []StructResult{{Name: name, Kind: "frame", Text: fmt.Sprintf("every call of %s%s passes one of %v as argument %d", a.Callee, where, a.Allowed, a.Arg),
 			Detail: fmt.Sprintf("%d call sites; %s", n, strings.Join(uniq(bad), "; ")), OK: len(bad) == 0 && n > 0}}
 	case "map_keys_written":
 		// the constant string keys under which the listed functions (and the closures inside them) store into or delete
